@@ -102,6 +102,10 @@ def run(R: vlib.Run):
                                     R.fail(f"stats-{tag}-exception", "compute_stats raised", dict(base, exc=r, mode=mode)); continue
                                 st = fil.chan_stats
                                 mu = want.mean(0); var = want.var(0)
+                                if nbits == 8 and mode == "full":
+                                    cc = int(rng.randrange(nch))
+                                    corr.append(("stats", x, splits, gulp, start, nsamps, cc, [],
+                                                 [int(st.moments["count"][cc]), int(st.minima[cc]), int(st.maxima[cc]), int(round(float(st.mean[cc]) * nsamps))]))
                                 bad = []
                                 if not np.array_equal(st.moments["count"], np.full(nch, nsamps)): bad.append("count")
                                 if not np.array_equal(st.maxima, want.max(0)) or not np.array_equal(st.minima, want.min(0)): bad.append("minmax")
@@ -181,7 +185,7 @@ def run(R: vlib.Run):
             sh = corr[si:si + per]
             rows = []
             for api, x, splits, gulp, start, nsamps, md, delays, out in sh:
-                code = {"collapse": 0, "bandpass": 1, "dedisperse": 2}[api]
+                code = {"collapse": 0, "bandpass": 1, "dedisperse": 2, "stats": 3}[api]
                 rows.append(f"({code}, {vlib.zlist(x.ravel())}, {x.shape[1]}, {x.shape[0]}, ({gulp}, {start}, {nsamps}), ({md}, {vlib.zlist(delays)}), {vlib.zlist(out)})")
             v = ["From Coq Require Import ZArith List Bool.", "Require Import SPP.Base.Rt SPP.Model.C06_pipe.", "Import ListNotations.", "Open Scope Z_scope.",
                  "Definition cases : list (Z * list Z * Z * Z * (Z * Z * Z) * (Z * list Z) * list Z) := [", ";\n".join(rows), "].",
